@@ -13,7 +13,7 @@ use std::{
 use serde::{Deserialize, Serialize};
 use tokio::io::{AsyncRead, AsyncWrite, ReadBuf};
 
-use crate::scenario::{ErrKind, ReadEv, WriteEv};
+use crate::scenario::{ErrKind, FlushEv, ReadEv, WriteEv};
 
 /// Result of an application-visible operation, abstracted to what the properties talk about.
 #[derive(Serialize, Deserialize, Clone, Debug, PartialEq, Eq)]
@@ -70,6 +70,10 @@ pub enum Ev {
     WData { off: usize, took: usize },
     WPending { off: usize },
     WErr { off: usize, kind: ErrKind },
+    /// n more bytes reached the peer (immediately after WData on an unbuffered link; on a
+    /// successful flush on a buffered one)
+    Wire { n: usize },
+    FlushPending,
     Flush,
     Shutdown,
     /// simulated clock advanced by ms; now is the new value
@@ -94,6 +98,10 @@ pub struct LinkState {
     pub eof: bool,
     pub reads: VecDeque<ReadEv>,
     pub writes: VecDeque<WriteEv>,
+    pub flushes: VecDeque<FlushEv>,
+    pub buffered: bool,
+    /// accepted by the write half but not yet handed to the peer (buffered link only)
+    pub staged: Vec<u8>,
     /// everything the peer has received
     pub out: Vec<u8>,
     pub trace: Vec<Ev>,
@@ -117,6 +125,9 @@ impl LinkState {
             eof: false,
             reads: reads.iter().cloned().collect(),
             writes: writes.iter().cloned().collect(),
+            flushes: VecDeque::new(),
+            buffered: false,
+            staged: Vec::new(),
             out: Vec::new(),
             trace: Vec::new(),
             want_advance: 0,
@@ -190,6 +201,52 @@ impl LinkState {
         }
     }
 
+    fn accept(&mut self, off: usize, bytes: &[u8]) {
+        let n = bytes.len();
+        if self.buffered {
+            self.staged.extend_from_slice(bytes);
+            self.trace.push(Ev::WData { off, took: n });
+        } else {
+            self.out.extend_from_slice(bytes);
+            self.trace.push(Ev::WData { off, took: n });
+            self.trace.push(Ev::Wire { n });
+        }
+    }
+
+    /// One flush of the write half. `None` = Pending.
+    pub fn do_flush(&mut self) -> Option<io::Result<()>> {
+        if let Err(e) = self.budget_check() {
+            return Some(Err(e));
+        }
+        loop {
+            match self.flushes.pop_front() {
+                Some(FlushEv::Pending) => {
+                    if self.is_async {
+                        self.trace.push(Ev::FlushPending);
+                        return None;
+                    }
+                },
+                Some(FlushEv::Stall(ms)) => {
+                    if self.is_async {
+                        self.want_advance += ms;
+                        self.trace.push(Ev::FlushPending);
+                        return None;
+                    }
+                },
+                Some(FlushEv::Ok) | None => {
+                    if !self.staged.is_empty() {
+                        let n = self.staged.len();
+                        let st = std::mem::take(&mut self.staged);
+                        self.out.extend_from_slice(&st);
+                        self.trace.push(Ev::Wire { n });
+                    }
+                    self.trace.push(Ev::Flush);
+                    return Some(Ok(()));
+                },
+            }
+        }
+    }
+
     /// One call of the write half. `None` = Pending.
     pub fn do_write(&mut self, buf: &[u8]) -> Option<io::Result<usize>> {
         if let Err(e) = self.budget_check() {
@@ -200,14 +257,12 @@ impl LinkState {
             match self.writes.pop_front() {
                 Some(WriteEv::Accept(k)) => {
                     let n = k.max(1).min(off);
-                    self.out.extend_from_slice(&buf[..n]);
-                    self.trace.push(Ev::WData { off, took: n });
+                    self.accept(off, &buf[..n]);
                     return Some(Ok(n));
                 },
                 Some(WriteEv::AllBut(k)) => {
                     let n = off.saturating_sub(k).max(1).min(off);
-                    self.out.extend_from_slice(&buf[..n]);
-                    self.trace.push(Ev::WData { off, took: n });
+                    self.accept(off, &buf[..n]);
                     return Some(Ok(n));
                 },
                 Some(WriteEv::Pending) => {
@@ -228,8 +283,7 @@ impl LinkState {
                     return Some(Err(io::Error::new(kind.to_io(), "injected")));
                 },
                 None => {
-                    self.out.extend_from_slice(buf);
-                    self.trace.push(Ev::WData { off, took: off });
+                    self.accept(off, buf);
                     return Some(Ok(off));
                 },
             }
@@ -265,8 +319,10 @@ impl io::Write for SimStream {
         }
     }
     fn flush(&mut self) -> io::Result<()> {
-        self.0.lock().unwrap().trace.push(Ev::Flush);
-        Ok(())
+        match self.0.lock().unwrap().do_flush() {
+            Some(r) => r,
+            None => unreachable!("blocking link never answers Pending"),
+        }
     }
 }
 
@@ -308,9 +364,14 @@ impl AsyncWrite for SimStream {
         }
     }
 
-    fn poll_flush(self: Pin<&mut Self>, _cx: &mut Context<'_>) -> Poll<io::Result<()>> {
-        self.0.lock().unwrap().trace.push(Ev::Flush);
-        Poll::Ready(Ok(()))
+    fn poll_flush(self: Pin<&mut Self>, cx: &mut Context<'_>) -> Poll<io::Result<()>> {
+        match self.0.lock().unwrap().do_flush() {
+            Some(r) => Poll::Ready(r),
+            None => {
+                cx.waker().wake_by_ref();
+                Poll::Pending
+            },
+        }
     }
 
     fn poll_shutdown(self: Pin<&mut Self>, _cx: &mut Context<'_>) -> Poll<io::Result<()>> {
